@@ -177,6 +177,13 @@ Example loop_form_primary_value :
                     | Ok (VInt 2), Ok (VInt 3) => true | _, _ => false end) [Slip; Ref; Chk] = true.
 Proof. vm_compute; reflexivity. Qed.
 
+(* repaired (repo_fixes/C01-20): length of a dotted list is a type error, (length (cons 9 t)), in every mode - the
+   built-ins are the same function in M and S; the interpreter used to count the tail as an element *)
+Example length_of_dotted_list_is_error :
+  forallb (fun m => match fst (run m 20 [EPrim PLength [EPrim PCons [I 9; ET]]]) with Er EType => true | _ => false end)
+          [Slip; Ref; Chk] = true.
+Proof. vm_compute; reflexivity. Qed.
+
 (* ---------------------------------------------------------------------------- zero values in single-value positions *)
 (* every place that takes ONE value from a form looks at the primary value only (in every mode; the place where a
    variable is bound: in the reference evaluator), and a form that returns NO value counts as nil there *)
